@@ -3,7 +3,7 @@ import re
 from checks import valcomp
 from vlib.proto import unhex
 
-LEAN_TARGETS = ["LyModel.Props.C03"]
+LEAN_TARGETS = ["LyModel.Props.C03", "LyModel.Props.C03Base", "LyModel.Props.C03Union", "LyModel.Props.C03Ident", "LyModel.Props.C03Pattern"]
 AUDIT = "Audit/C03.lean"
 GENERATED = ["ValBounds", "Consts", "ValExt"]
 ASSUMPTIONS = [
